@@ -1289,7 +1289,8 @@ pub fn ep_leaf() -> BoxedStrategy<NP> {
     prop_oneof![
         6 => (prop_oneof![Just(EpKind::Tx), Just(EpKind::Rx), Just(EpKind::OTx), Just(EpKind::ORx), Just(EpKind::BTx), Just(EpKind::BRx)], any::<u16>())
             .prop_map(|(kind, sel)| NP::Ep { kind, sel }),
-        2 => (prop_oneof![Just(0u32), Just(1), 1u32..5000, Just(4095), Just(4096), Just(4097)], any::<u64>(), proptest::option::weighted(0.3, any::<u8>()))
+        // few seeds and fill bytes: two regions of one value often have *equal contents*
+        2 => (prop_oneof![Just(0u32), Just(1), 1u32..5000, Just(4095), Just(4096), Just(4097)], prop_oneof![2 => 0u64..2, 1 => any::<u64>()], proptest::option::weighted(0.3, prop_oneof![2 => Just(0u8), 1 => any::<u8>()]))
             .prop_map(|(len, seed, fill)| NP::Shm { len, seed, fill }),
         3 => node::data_leaf(),
     ]
